@@ -180,7 +180,7 @@ def main() -> int:
     assert result3.model is empty and result3.modified is False
     assert dump(empty) == before3
 
-    # ---- 4. rejected call: reference attribute of type GRAPH on a kept node --------
+    # ---- 4. reference attribute of type GRAPH on a kept node ------------------------
     xr = ir.Value(name="xr")
     first = ir.node("Neg", [xr], name="dead_after")  # visited only after the failure
     first.outputs[0].name = "unused"
@@ -212,25 +212,17 @@ def main() -> int:
         ir_version=10,
         functions=[fn],
     )
-    try:
-        common.RemoveUnusedNodesPass()(model4)
-    except TypeError as e:
-        assert "is not a graph" in str(e), str(e)
-    else:
-        raise AssertionError("a GRAPH reference attribute must be rejected")
-    # Reverse traversal: the tail was removed, the node in front of the failure was not.
-    assert node_names(fn) == ["Neg", "Holder"], node_names(fn)
-    assert tail.graph is None and first.graph is not None
+    # (Before the repair 37c3965 of the library this call ended in TypeError; a reference attribute is now skipped.)
+    result4 = common.RemoveUnusedNodesPass()(model4)
+    assert result4.modified is True
+    # Both dead nodes are removed, the node holding the reference attribute stays.
+    assert node_names(fn) == ["Holder"], node_names(fn)
+    assert tail.graph is None and first.graph is None
     assert node_names(model4.graph) == ["with_ref"]
-    # The same rejection through a pass manager is wrapped in a PassError.
-    try:
-        ir.passes.PassManager([common.RemoveUnusedNodesPass()])(model4)
-    except ir.passes.PassError as e:
-        assert isinstance(e.__cause__, ir.passes.PassError), repr(e.__cause__)
-        assert isinstance(e.__cause__.__cause__, TypeError), repr(e.__cause__.__cause__)
-    else:
-        raise AssertionError("a GRAPH reference attribute must be rejected")
-    assert node_names(fn) == ["Neg", "Holder"], node_names(fn)
+    # The same through a pass manager: nothing left to do.
+    result4b = ir.passes.PassManager([common.RemoveUnusedNodesPass()])(model4)
+    assert result4b.modified is False
+    assert node_names(fn) == ["Holder"], node_names(fn)
 
     # ---- 5. composition in a pass manager reaches a fixpoint -----------------------
     model5 = build()
